@@ -1513,6 +1513,7 @@ func TestC15(t *testing.T) {
 	}
 	idx := 0
 	complete := true
+flagSets:
 	for mask := 0; mask < 1<<len(atoms); mask++ {
 		for k := 0; k < perSet; k++ {
 			for _, ind := range indents {
@@ -1535,7 +1536,7 @@ func TestC15(t *testing.T) {
 					rec.Direct("flags", c, "%s", msg)
 					complete = false
 					if rec.Violations() > 12 {
-						t.Fatalf("too many violations")
+						break flagSets // enough; the other sub-checks still run
 					}
 				}
 			}
@@ -1546,6 +1547,8 @@ func TestC15(t *testing.T) {
 	// (E2) --stream alone and with -s / -n over fixed documents and queries that
 	// keep several events alive
 	complete = true
+	before := rec.Violations()
+streamSets:
 	for _, docs := range streamDocs {
 		for _, args := range streamArgs {
 			for _, q := range streamQueries {
@@ -1557,8 +1560,8 @@ func TestC15(t *testing.T) {
 				if msg := do("stream-fixed", c); msg != "" {
 					rec.Direct("stream-fixed", c, "%s", msg)
 					complete = false
-					if rec.Violations() > 12 {
-						t.Fatalf("too many violations")
+					if rec.Violations() > before+6 {
+						break streamSets
 					}
 				}
 			}
